@@ -66,6 +66,7 @@ func (f *follower) read() {
 			f.db.log.Tracef("Sending dims %v", dims.AsMap())
 		}
 		err := f.cb(entry.data, entry.offset)
+		verifPoint("follow.delivered")
 		if err != nil {
 			f.db.log.Errorf("Error on following for follower %d: %v", f.FollowerID.Partition, err)
 			f.markFailed()
@@ -79,6 +80,7 @@ func (f *follower) submit(entry *walEntry) {
 		return
 	}
 	f.entries <- entry
+	verifPoint("follow.submitted")
 }
 
 func (f *follower) markFailed() {
@@ -452,6 +454,9 @@ func (db *DB) enqueuePartitionRequests(parallelism int, requests chan *partition
 			}
 		default:
 			markQueued()
+			if verifIdleSleep(1 * time.Second) {
+				continue
+			}
 			time.Sleep(1 * time.Second)
 		}
 	}
@@ -641,6 +646,7 @@ func (db *DB) followLeaders(stream string, newSubscriber chan *tableWithOffsets,
 	// Wait a little while for database to initialize
 	// TODO: make this more rigorous, perhaps using eventual or something
 	timer := time.NewTimer(30 * time.Second)
+	verifResetTimer(timer, 30*time.Second)
 	var tables []*table
 	var offsets []common.OffsetsBySource
 	partitions := make(map[string]*common.Partition)
@@ -654,6 +660,7 @@ waitForTables:
 			if len(tables) == 0 {
 				// Wait some more
 				timer.Reset(10 * time.Second)
+				verifResetTimer(timer, 10*time.Second)
 			}
 			break waitForTables
 		case subscriber := <-newSubscriber:
@@ -676,6 +683,7 @@ waitForTables:
 			})
 			// Got some tables, don't wait as long this time
 			timer.Reset(5 * time.Second)
+			verifResetTimer(timer, 5*time.Second)
 		}
 	}
 
